@@ -334,8 +334,9 @@ def main_check(prop, tier, seed, cases=None, wall=None, workers=None, out=sys.st
 
     wall_s = time.monotonic() - t0
     ev = agg.evidence(prop, tier, seed, o, wall_s, n_unknown, known_hits, len(harness), n)
-    os.makedirs(os.path.join(ROOT, 'evidence'), exist_ok=True)
-    with open(os.path.join(ROOT, 'evidence', '%s.json' % prop), 'w') as f:
+    evdir = os.environ.get('VERIF_EVIDENCE_DIR') or os.path.join(ROOT, 'evidence')
+    os.makedirs(evdir, exist_ok=True)
+    with open(os.path.join(evdir, '%s.json' % prop), 'w') as f:
         json.dump(ev, f, indent=1, default=jdefault, sort_keys=True)
     print('%s %s: cases=%d executions=%d nontrivial=%d violations=%d known_hits=%d harness=%d wall=%.1fs exit=%d' % (
         prop, tier, agg.cases, agg.execs, len(agg.nontrivial), n_unknown, sum(known_hits.values()), len(harness), wall_s,
